@@ -286,6 +286,8 @@ structure AutData (a : AutOp κ) (L : Nat) (act : List (List Int)) : Prop where
   actNodes : ∀ j, j ≤ L → ∀ v ∈ act.getD j [], v ∈ dKeys a.nodes
   pruned : ∀ j, j < L → ∀ u ∈ act.getD j [], ∀ k e, (k, e) ∈ a.edges → e.nids.1 = u → e.active j = true →
     e.nids.2 ∉ act.getD (j + 1) [] → ∀ w : Word, w.length + (j + 1) = L → a.denFrom w (j + 1) e.nids.2 = 0
+  succ : ∀ j, j < L → ∀ u ∈ act.getD j [], ∃ v ∈ act.getD (j + 1) [], ∃ e ∈ inEv a v,
+    e.active j = true ∧ e.nids.1 = u
 
 /-- the summand of `denE` on an edge record -/
 def recF (x : Int) (o : Int) (D : Int → κ) (r : ERec κ) : κ :=
@@ -457,7 +459,24 @@ theorem autData_of_layers {a : AutOp κ} (hv : AutValid a) {L : Nat} {back fwd :
   have hact : ∀ j, j ≤ L → (actOf back fwd).getD j [] =
       (back.getD j []).filter (fun x => (fwd.getD j []).contains x) :=
     fun j hj => actOf_getD back fwd j (by omega) (by omega)
-  refine ⟨?_, h0, hL, hnodes, ?_⟩
+  refine ⟨?_, h0, hL, hnodes, ?_, ?_⟩
+  rotate_left 2
+  · intro j hj u hu
+    rw [hact j (by omega)] at hu
+    simp only [mem_filter, contains_eq_mem, decide_eq_true_eq] at hu
+    obtain ⟨v, hvB, n, hn, eid, heid, e, he, hactive, h1⟩ := (stepActive_spec (bstep j hj)).2 u |>.1 hu.1
+    have h1' : e.nids.1 = u := by simpa [AEdge.nid] using h1
+    have hfw := mem_fwd_succ hv fstep hj hu.2 (mem_of_dGet?_eq_some he) h1' hactive
+    obtain ⟨n', hn', _⟩ := hv.edgeNode eid e he true
+    obtain ⟨e', he', hv'⟩ := hv.nodeEdge v n hn false eid heid
+    rw [he] at he'; cases he'
+    have hv'' : e.nids.2 = v := by simpa [AEdge.nid] using hv'
+    refine ⟨v, ?_, e, ?_, hactive, h1'⟩
+    · rw [hact (j + 1) (by omega)]
+      simp only [mem_filter, contains_eq_mem, decide_eq_true_eq]
+      exact ⟨hvB, hv'' ▸ hfw⟩
+    · simp only [inEv, hn, inE, mem_filterMap]
+      exact ⟨eid, by simpa [Node.eids] using heid, he⟩
   · intro j hj
     rw [hact j hj]
     apply Nodup.filter
